@@ -8,6 +8,7 @@ differential harness checks against the Go code.  A pool is the list of its bala
 positive) and its total shares `S`; `deps`, `joined`, `outs` are aligned with `bals`.
 -/
 import ElysModel.Lemmas.AmmLiquidity
+import ElysModel.Amm.ExitFair
 namespace Elys.Amm.C05
 open Elys Elys.Amm
 
@@ -154,5 +155,26 @@ example : exitPool [1001000, 3003000] 100100000000000000000 100000000000000000
 example : calcExit [1000000, 3000000] 100000000000000000000 33333333333333333333 = .ok [333333, 999999] := by rfl
 /-- a lopsided pool and a dust deposit: 5 of 7 units in, 714 of 1000 shares out, the rest returned. -/
 example : joinPoolAll [7, 3000000] 1000 [5, 2999999] = .ok ([5, 2142858], 714, [12, 5142858], 1714) := by rfl
+
+/-! ### what is judged on observed blocks (Drv/ExitFairH) -/
+
+open Elys.Amm.Fair in
+/-- the block-level clause accepts every exit that pays at most the pro-rata share of the pool's value: for all amounts, prices
+and share counts (so it can only reject payouts ABOVE pro rata, beyond its tolerance) -/
+theorem exitFairB_of_pro_rata (v S s out price tol slack : Int) (hS : 0 ≤ S) (hp : 0 ≤ price) (htol : 0 ≤ tol) (hsl : 0 ≤ slack)
+    (hsv : 0 ≤ s * v) (h : out * price * S ≤ s * v) : exitFairB v S s out price tol slack = true := by
+  unfold exitFairB
+  simp only [decide_eq_true_eq]
+  have h1 : (out - slack) * price * S ≤ out * price * S := by
+    have : (out - slack) * price ≤ out * price := Int.mul_le_mul_of_nonneg_right (by omega) hp
+    exact Int.mul_le_mul_of_nonneg_right this hS
+  have h2 : (out - slack) * price * S ≤ s * v := Int.le_trans h1 h
+  have h3 : (out - slack) * price * S * 1000000 ≤ s * v * 1000000 := Int.mul_le_mul_of_nonneg_right h2 (by omega)
+  have h4 : s * v * 1000000 ≤ s * v * (1000000 + tol) := Int.mul_le_mul_of_nonneg_left (by omega) hsv
+  exact Int.le_trans h3 h4
+
+open Elys.Amm.Fair in
+/-- WITNESS (the shape of seeded change C05-2): 10 of 100 shares of a pool worth 1000 paid out 115 instead of at most 100 -/
+theorem exit_above_pro_rata_witness : exitFairB 1000 100 10 115 1 = false ∧ exitFairB 1000 100 10 100 1 = true := by decide
 
 end Elys.Amm.C05
